@@ -259,8 +259,13 @@ class ParamsGenerator:
       RuntimeError: If the tensors sharing the same buffer have different
         quantization settings.
     """
-    for tensors in self.buffer_to_tensors.values():
+    for buffer_idx, tensors in self.buffer_to_tensors.items():
       if len(tensors) <= 1:
+        continue
+      # Only constant data is shared through a buffer. A runtime tensor that
+      # is read by several ops may legitimately receive different parameters
+      # from its consumers (a requantize op is inserted for those).
+      if self.flatbuffer_model.buffers[buffer_idx].data is None:
         continue
       first_tensor = tensors[0]
       first_tensor_params = self.model_quant_results[
